@@ -37,8 +37,8 @@ def known_f28(ctx, results):
 
 def run(ctx):
     q1, q2, q3 = {'quick': (64, 48, 32), 'thorough': (600, 400, 200)}[ctx.tier]
-    plan = [('plain', q1, 8), ('ops', q2, 6), ('eof', q3, 4)]
+    plan = [('plain', q1, 8), ('ops', q2, 6), ('eof', q3, 4), ('reads', q2, 6)]
     return rtprop.run(ctx, THEOREMS, plan, 'exploration',
-                      'delivery independence: every case runs the real scanner under a buffer size in {1,2,3,4,5,7,8,16,33,16384} and a read schedule (1-byte, small random, larger random, unrestricted); the Lean abstract scanner has no buffer at all, so equality of traces is independence from delivery' + '. Kernel-checked theorems about the abstract scanner (listed under obligations) + differential '
+                      'delivery independence: every case runs the real scanner under a buffer size in {1,2,3,4,5,7,8,16,33,16384} and a read schedule (1-byte, small random, larger random, unrestricted); the Lean abstract scanner has no buffer at all, so equality of traces is independence from delivery; `reads` family: with 1-byte reads every action logs how many bytes the scanner has asked for so far, and the model predicts that number from the automaton alone (batch: up to the byte that jams it; interactive: also stops at a state without outgoing transitions) - an interactive scanner that asks for more has over-read' + '. Kernel-checked theorems about the abstract scanner (listed under obligations) + differential '
                       'correspondence of the real generated scanner (ASan/UBSan build) with that model on generated cases.',
                       post=known_f28)
